@@ -225,9 +225,31 @@ func checkC05(c C05Case) Outcome {
 		out.Violation = fmt.Sprintf("regex differs between the including file and the hand-inlined file (languages %s)", cmp.Verdict)
 		return out
 	}
-	if hasLabel(c.Lab, "main-references-include-definition") && a.Exit == 0 && !strings.Contains(a.Stdout, `\{\{`) {
-		out.Violation = "a definition made in an included file leaked into the including file"
-		return out
+	if hasLabel(c.Lab, "main-references-include-definition") && a.Exit == 0 {
+		// Asked of a probe (include of the defining file + the one entry `zz{{name}}`) and as membership of the
+		// literal text: in the full output the optimiser may factor `\{\{` apart, a substring test would be unsound
+		for _, n := range fileNames(prog) {
+			for _, l := range prog.Files[n] {
+				if l.K != ragen.KDefine {
+					continue
+				}
+				base := strings.TrimSuffix(strings.TrimPrefix(strings.TrimPrefix(n, "include/"), "exclude/"), ".ra")
+				if lines, ok := prog.Lookup(base); !ok || len(lines) == 0 || &lines[0] != &prog.Files[n][0] {
+					continue // shadowed by a file of the same name in the other directory
+				}
+				pr := &ragen.Program{Main: []ragen.Line{{K: ragen.KInclude, File: base}, {K: ragen.KEntry, T: "zz{{" + l.Name + "}}"}}, Files: prog.Files, Config: prog.Config}
+				r := generate(pr)
+				if r.Exit != 0 {
+					continue
+				}
+				if m, err := reqv.FullMatch(r.Stdout, "zz{{"+l.Name+"}}"); err == nil && !m {
+					out.Detail["probe"], out.Detail["probe_out"] = pr.MainText(), r.Stdout
+					out.Violation = "a definition made in an included file leaked into the including file: `zz{{" + l.Name + "}}` typed after `include " + base + "` no longer matches that literal text"
+					return out
+				}
+				break
+			}
+		}
 	}
 	nInc := len(reach)
 	out.NonTrivial = nInc > 0 && a.Exit == 0
